@@ -59,3 +59,12 @@ Theorem C02_set_protocol_features_end_to_end : forall cfg s o v fl,
   = [call "set_protocol_features" [VN v]].
 Proof. exact set_protocol_features_end_to_end. Qed.
 Print Assumptions C02_set_protocol_features_end_to_end.
+
+(* the request an accepted call writes carries the caller's own values in the specified fields, for every operation and
+   all values (the frontend half of "the handler sees the caller's arguments"; the backend half for four operations is
+   above, for the rest it is the sess correspondence) *)
+From VV Require Import Spec.FeSpec Proofs.TxSpecProofs.
+Theorem C02_frontend_request_carries_callers_values : forall name, In name fe_op_names ->
+  forall s a data fds regions q, args_wf name a data regions -> sends_spec s name a data fds regions q.
+Proof. exact frontend_transmits_spec. Qed.
+Print Assumptions C02_frontend_request_carries_callers_values.
